@@ -8,5 +8,5 @@ CONSTANTS
     Depth = 0
 VIEW View
 INVARIANTS TypeOK TailIndependent
-PROPERTIES FindersRecoverStamps UnaryNotMisread RequestsRoundTrip NeverPanics
+PROPERTIES FindersRecoverStamps UnaryNotMisread RequestsRoundTrip WritersFrame NeverPanics
 CHECK_DEADLOCK FALSE
